@@ -7,6 +7,7 @@ import RsModel.Lemmas.SourcesOnce
 import RsModel.Lemmas.ProvLines
 import RsModel.Lemmas.ColdStrip
 import RsModel.Lemmas.ProvRepl
+import RsModel.Lemmas.ProvNest
 /-!
 # C04 — mappings point to where the text really came from
 (leaf level: an OriginalSource maps every token to its own position; the composites are tied by correspondence)
@@ -308,5 +309,42 @@ theorem c04_bundle_map_bytes (cons : Text → Option Text) (s : Src) (h : s.Repl
 example : (Src.concat (.cons (.replace (.orig [97, 59, 98] [102]) [⟨1, 2, [88], none, 1⟩]) (.cons (.orig [99] [103]) .nil))).ReplWD
     (fun n => if n = [102] then some [97, 59, 98] else if n = [103] then some [99] else none) := by
   simp [Src.ReplWD, SrcList.ReplWDs, Src.OrigTree, Src.WD]
+
+/-! ## ReplaceSource inside ReplaceSource -/
+
+/-- **C04, chunk stream, for every cache-free tree of raw / OriginalSource leaves under ConcatSource and ReplaceSource nodes nested
+in any way** (`Src.NestWD`: ReplaceSource over ReplaceSource, directly or through ConcatSource, included; one content per file
+name, ASCII): every mapped chunk names — through the files announced so far in the stream — a file with its content `T` and is
+either a *surviving piece* `T[q..q')` of that very file inside one potential token, attributed to the true line and column of byte
+`q`, byte `j` of the piece at the reported column plus `j`; or *generated text*: a slice of a line of the content of one of the
+tree's replacements (the property's don't-care — an outer ReplaceSource may cut generated text of an inner one into pieces and
+computes columns for them that mean nothing; nothing is claimed about them).  (`rEvs_survQ`: a ReplaceSource keeps this for any
+inner stream that has it.) -/
+theorem c04_nested_stream (cons : Text → Option Text) (hasc : ∀ n T, cons n = some T → IsAscii T ∧ T.length < USIZE_MAX)
+    (s : Src) (h : s.NestWD cons) (σ : Store) :
+    ProvQ (SurvQ (GenIn s.allReplsN)) emptyS (s.stream ⟨true, false⟩ σ).1.evs :=
+  Src.stream_survQ cons hasc s h σ
+
+/-- **… and through `map()`, byte by byte**: every byte `i` of `source()` that the returned SourceMap resolves to `o` is, through
+the map's own `sources` / `sourcesContent`, either the original byte `T[q + d]` of the file `o` names, inside a surviving piece
+starting at byte `q` whose true position is `o`'s line and column, the byte's own true position being that line and that column
+plus `d` — or a byte of a line of the content of one of the tree's replacements. -/
+theorem c04_nested_map_bytes (cons : Text → Option Text) (s : Src) (h : s.NestWD cons) (hz : s.NestSized)
+    (hasc : ∀ n T, cons n = some T → IsAscii T ∧ T.length < USIZE_MAX) (final : Bool)
+    (hsmall : ∀ m ∈ chunkMs (s.stream ⟨true, true⟩ []).1.evs, m.small)
+    (sm : SMap) (hm : (getMap s ⟨true, final⟩ []).1 = some sm) :
+    ∀ (i : Nat) (o : Orig), (attrFrom (decode sm.mappings) startPos s.src)[i]? = some (some o) →
+      ∃ (name T : Text), sm.sources[o.src]? = some name ∧ sm.sourcesContent[o.src]? = some T
+        ∧ ((∃ q d, q + d < T.length ∧ adv startPos (T.take q) = ⟨o.line, o.col⟩ ∧ s.src[i]? = T[q + d]?
+              ∧ adv startPos (T.take (q + d)) = ⟨o.line, o.col + d⟩
+              ∧ ∃ tok k0 l0 c0, TokPos T tok l0 c0 k0 ∧ k0 ≤ q ∧ q + d < k0 + tok.length)
+            ∨ (∃ r ∈ s.allReplsN, ∃ cl ∈ splitLines r.content, ∃ e, e < cl.length ∧ s.src[i]? = cl[e]?)) :=
+  nestTree_map_bytes cons s h hz hasc final hsmall sm hm
+
+/-- non-vacuity: `ReplaceSource(ConcatSource[ReplaceSource(OriginalSource("a;b", "f")), OriginalSource("c", "g")])` is such a tree -/
+example : (Src.replace (Src.concat (.cons (.replace (.orig [97, 59, 98] [102]) [⟨1, 2, [88], none, 1⟩]) (.cons (.orig [99] [103]) .nil)))
+      [⟨0, 2, [89, 90], none, 2⟩]).NestWD
+    (fun n => if n = [102] then some [97, 59, 98] else if n = [103] then some [99] else none) := by
+  simp [Src.NestWD, SrcList.NestWDs]
 
 end Rs
